@@ -187,6 +187,17 @@ def main(argv=None) -> int:
             continue
         payload.append({"id": i, "h": seq})
         by_id[i] = (key, opts, hist)
+    # the cycle / fixpoint detection inside one run: loop clauses of PipelineTrace.tla on recorded runs
+    import pipecheck
+    sample_items = [(k, txt, o) for (k, txt, o), _ in hs[:: max(1, len(hs) // (250 if t == "quick" else 2000))]]
+    runs = pipecheck.run_and_validate(rep, sample_items, label="C09 loop clauses", timeout=120)
+    for r in runs:
+        bad = {c: p for c, p in r.verdict["bad"].items() if c in ("ExitOnRepeat", "LoopExitUnjustified", "Budget")}
+        if bad:
+            rep.violation(f"fixpoint loop of format_code breaks {'/'.join(sorted(bad))} (the loop does not stop exactly on the first repeated "
+                          f"text or when the budget is used up); input {r.key}",
+                          {"input_id": r.key, "source": r.source, "clauses": bad,
+                           "events": [(e["k"], e["s"], e["n"]) for e in r.trace["ev"]][:60]})
     trees = module_passes(rep, mods, rng, t)
     base = len(hs) + 1
     for j, h in enumerate(trees):
